@@ -1,6 +1,7 @@
 package conc
 
 import (
+	"bufio"
 	"fmt"
 	"sort"
 	"strings"
@@ -13,7 +14,7 @@ import (
 // multiset) after the window's quiescence.
 type logger struct {
 	mu    sync.Mutex
-	lines []string
+	out   *bufio.Writer // lines are written through at once, so a crash leaves the log so far
 	win   []string
 }
 
@@ -25,13 +26,19 @@ func (l *logger) obs(format string, args ...any) {
 
 func (l *logger) item(format string, args ...any) {
 	l.mu.Lock()
-	l.lines = append(l.lines, fmt.Sprintf(format, args...))
+	fmt.Fprintf(l.out, format, args...)
+	l.out.WriteByte('\n')
+	l.out.Flush()
 	l.mu.Unlock()
 }
 
 func (l *logger) flush() {
 	l.mu.Lock()
-	l.lines = append(l.lines, l.win...)
+	for _, w := range l.win {
+		l.out.WriteString(w)
+		l.out.WriteByte('\n')
+	}
+	l.out.Flush()
 	l.win = nil
 	l.mu.Unlock()
 }
